@@ -686,6 +686,10 @@ type Event struct {
 	SendGroup bool
 	// SendGroupLast: a flat NoPartyIDs group (453) as the last body field
 	SendGroupLast bool
+	// SendType: MsgType of the application message (default D); SendNews: a News message whose first body field is
+	// the LinesOfText group count (33)
+	SendType string
+	SendNews bool
 	// Behind: a second inbound message already buffered in the inbound channel while In is handled (pipelined by
 	// the peer); its number is relative to T at the time In arrives
 	Behind *In
@@ -836,6 +840,17 @@ func (w *World) applySync(e *Event) {
 	case "send":
 		m := quickfix.NewMessage()
 		m.Header.SetString(35, "D")
+		if e.SendType != "" {
+			m.Header.SetString(35, e.SendType)
+		}
+		if e.SendNews {
+			m.Header.SetString(35, "B")
+			g := quickfix.NewRepeatingGroup(33, quickfix.GroupTemplate{quickfix.GroupElement(58)})
+			g.Add().SetString(58, "line one")
+			g.Add().SetString(58, "line=two")
+			m.Body.SetGroup(g)
+			m.Body.SetString(148, "headline")
+		}
 		for _, f := range e.Send {
 			m.Body.SetString(quickfix.Tag(f.Tag), f.Value)
 		}
@@ -954,6 +969,17 @@ func (w *World) applyLoop(e *Event) {
 	case "send":
 		m := quickfix.NewMessage()
 		m.Header.SetString(35, "D")
+		if e.SendType != "" {
+			m.Header.SetString(35, e.SendType)
+		}
+		if e.SendNews {
+			m.Header.SetString(35, "B")
+			g := quickfix.NewRepeatingGroup(33, quickfix.GroupTemplate{quickfix.GroupElement(58)})
+			g.Add().SetString(58, "line one")
+			g.Add().SetString(58, "line=two")
+			m.Body.SetGroup(g)
+			m.Body.SetString(148, "headline")
+		}
 		for _, f := range e.Send {
 			m.Body.SetString(quickfix.Tag(f.Tag), f.Value)
 		}
